@@ -215,3 +215,61 @@ Proof.
   rewrite (be_encode_decode_n 2 st), (be_encode_decode_n 4 pb), (be_encode_decode_n 2 eb), (be_encode_decode_n 2 fb), (be_encode_decode_n 2 il) by assumption.
   rewrite <- !app_assoc. rewrite D5, <- D4, D3, OFF. rewrite <- D2, <- D1. exact D0.
 Qed.
+
+(* ---- EncryptedLeaseSet: appended bytes change neither the value nor the consumed length ---- *)
+Lemma cut_app (n : nat) (r y : bytes) : (n <= length r)%nat ->
+  slice_to n (r ++ y) = Ok (firstn n r) /\ slice_from n (r ++ y) = Ok (skipn n r ++ y).
+Proof.
+  intros H. rewrite slice_to_app by exact H. rewrite slice_to_ok by exact H.
+  destruct (slice_from_app n r y H) as [A _]. rewrite A. auto.
+Qed.
+
+Theorem read_els_AppendInv : AppendInv read_encrypted_lease_set.
+Proof.
+  intros d l r y. unfold read_encrypted_lease_set.
+  change c_encrypted_leaseset_ENCRYPTED_LEASESET_MIN_SIZE with 109.
+  destruct (Z.of_nat (length d) <? 109) eqn:E0; [discriminate|].
+  rewrite app_length. replace (Z.of_nat (length d + length y) <? 109) with false by lia.
+  rewrite (slice_app 0 2 d y) by lia. rewrite slice_ok by lia.
+  destruct (slice_from_app 2 d y ltac:(lia)) as [SF1 SF2]. rewrite SF1, SF2. cbn [rbind].
+  set (r0 := skipn 2 d).
+  destruct (kc_spk_size _) as [ks|] eqn:KS; [|discriminate].
+  pose proof (kc_spk_size_nonneg _ _ KS) as KSn.
+  destruct (Z.of_nat (length r0) <? ks) eqn:E1; [discriminate|].
+  rewrite app_length. replace (Z.of_nat (length r0 + length y) <? ks) with false by lia.
+  destruct (cut_app (Z.to_nat ks) r0 y ltac:(lia)) as [C1 C2]. rewrite C1, C2.
+  rewrite slice_to_ok, slice_from_ok by lia. cbn [rbind].
+  set (r1 := skipn (Z.to_nat ks) r0).
+  destruct (length r1 <? 8)%nat eqn:E2; [discriminate|]. apply Nat.ltb_ge in E2.
+  rewrite app_length. replace (length r1 + length y <? 8)%nat with false by lia.
+  rewrite (slice_app 0 4 r1 y), (slice_app 4 6 r1 y), (slice_app 6 8 r1 y) by lia.
+  destruct (slice_from_app 8 r1 y ltac:(lia)) as [SF3 SF4]. rewrite SF3, SF4.
+  rewrite !slice_ok by lia. cbn [rbind].
+  set (r2 := skipn 8 r1).
+  destruct (negb (Z.land _ _ =? 0)); [discriminate|].
+  (* offline signature *)
+  match goal with |- (do orr <- ?e; _) = _ -> _ => destruct e as [[oo r3]| |] eqn:EO; cbn [rbind fst snd]; try discriminate end.
+  match goal with |- _ -> (do orr <- ?e2; _) = _ => assert (EO' : e2 = Ok (oo, r3 ++ y)) end.
+  { revert EO. destruct (has_offline _).
+    - destruct (read_offline_signature r2 _) as [[o r3']| |] eqn:RO; cbn [rbind fst snd]; try discriminate.
+      intros H. apply Ok_pair_inj in H. destruct H as [<- <-].
+      rewrite (read_offline_AppendInv _ _ _ _ y RO). reflexivity.
+    - intros H. apply Ok_pair_inj in H. destruct H as [<- <-]. reflexivity. }
+  rewrite EO'. cbn [rbind fst snd].
+  destruct (length r3 <? 2)%nat eqn:E3; [discriminate|]. apply Nat.ltb_ge in E3.
+  rewrite app_length. replace (length r3 + length y <? 2)%nat with false by lia.
+  rewrite (slice_app 0 2 r3 y) by lia.
+  destruct (slice_from_app 2 r3 y ltac:(lia)) as [SF5 SF6]. rewrite SF5, SF6. rewrite slice_ok by lia. cbn [rbind].
+  set (r4 := skipn 2 r3).
+  destruct (be_decode _ =? 0)%N; [discriminate|].
+  match goal with |- context [(length r4 <? ?n)%nat] => destruct (length r4 <? n)%nat eqn:E4; [discriminate|]; apply Nat.ltb_ge in E4;
+    rewrite app_length; replace (length r4 + length y <? n)%nat with false by lia;
+    destruct (cut_app n r4 y E4) as [C3 C4]; rewrite C3, C4; rewrite slice_to_ok, slice_from_ok by lia end.
+  cbn [rbind].
+  match goal with |- (do sr <- read_signature ?r5 ?t; _) = _ -> _ =>
+    destruct (read_signature r5 t) as [[sg r6]| |] eqn:RS; cbn [rbind fst snd]; try discriminate;
+    rewrite (read_signature_AppendInv t _ _ _ y RS) end.
+  cbn [rbind fst snd].
+  match goal with |- (if ?c then _ else _) = _ -> _ => destruct c; [|discriminate] end.
+  intros H. apply Ok_pair_inj in H. destruct H as [<- <-]. reflexivity.
+Qed.
